@@ -9,6 +9,7 @@ import Pixman.Lemmas.TrapShape
 import Pixman.Lemmas.TrapTri
 import Pixman.Lemmas.TrapSetup
 import Pixman.Lemmas.TrapWords
+import Pixman.Lemmas.TrapWordsImg
 import Pixman.Gen.EdgeWords
 import Pixman.Spec.ZeroSrc
 /-! C12 — trapezoid coverage is an exact sample count: property theorems.
@@ -699,7 +700,7 @@ example :
   `row8Fill_cols`, `FillIn`).  `realizeRow` is C03's `realize` for one row: one C10 pixel store (`storeRaw`) per
   changed cell.  The three stores after `MASK_BITS` are REGENERATED from the source text (`Gen/EdgeWords.lean`,
   tools/gen_edgewords.py, fails closed) and bridged by `rfl`: seeded C12-m4 (`a++` for the whole middle run)
-  breaks the extraction obligation. -/
+  breaks the extraction obligation.  `rasterizeEdgesW_holds` composes the rows to the whole image. -/
 
 open Pixman.Model.Format Pixman.TrapWords in
 /-- the hand-written stores after `MASK_BITS` are the regenerated ones -/
@@ -793,6 +794,32 @@ theorem row8_words_eq_realize (m : Mem) (hb : m.Bytes) (line : Nat) (row : Array
     flushFillW (fillSpansW line W spans (m, {})).1 line (fillSpansW line W spans (m, {})).2 =
       realizeRow 8 line row (naiveSpans W spans row) m :=
   Pixman.Lemmas.TrapWords.row8_words_eq_realize m hb line row hold W hsz hW spans
+
+open Pixman.Model.Format Pixman.TrapWords Pixman.Lemmas.TrapWordsImg in
+/-- **the whole rasteriser on memory.**  `rasterizeEdgesW` runs the word / nibble / byte row bodies over the rows
+    `rasterize_edges_N` visits (`walkRows`; `line = buf + row·stride`, a8 fill state carried inside a pixel row and
+    flushed at its end).  `HoldsImg n bits stride m img`: `m` is a byte memory in which pixel `(c, r)` of the image at
+    byte address `bits`, rowstride `stride` words, read with C10's `fetchRaw`, is cell `(r, c)` of `img`.
+    If `m` holds `img` (rows fit the stride, `t ≤ b` grid rows inside the image — what `sampleRows_in_image` gives),
+    the memory after the run holds `rasterizeEdges n img l r t b`, for ARBITRARY edges; and (`FrameImg`) every padding
+    position of every row and every byte before / after the image is unchanged.  With `holdsRow_unique` row by row
+    this memory is C03's `realize`. -/
+theorem rasterizeEdgesW_holds (n : Nat) (hn : Depth n) (bits stride : Nat) (m : Mem) (img : Img)
+    (h : HoldsImg n bits stride m img) (hs : Pixman.Lemmas.TrapWordsImg.Shaped img) (hw : img.width ≤ 32767)
+    (hfit : img.width * n ≤ 32 * stride) (hrun : img.runaway = false) (l r : Edge) (t b : Int)
+    (ht : IsGridRow n t) (hb : IsGridRow n b) (htb : t ≤ b) (ht0 : 0 ≤ t)
+    (hbh : b / 65536 < (img.height : Int)) (hb2 : b ≤ 2147483647) :
+    HoldsImg n bits stride (rasterizeEdgesW id n bits stride img.width m l r t b) (rasterizeEdges n img l r t b) ∧
+    FrameImg n bits stride img.width img.height m (rasterizeEdgesW id n bits stride img.width m l r t b) :=
+  Pixman.Lemmas.TrapWordsImg.rasterizeEdgesW_holds n hn bits stride m img h hs hw hfit hrun l r t b ht hb htb ht0 hbh hb2
+
+open Pixman.Model.Format Pixman.TrapWords Pixman.Lemmas.TrapWordsImg in
+/-- what the driver runs for its flag `w` (`rasterizeEdgesWB`: the memory kept as the array of its first `total` bytes)
+    is `rasterizeEdgesW` with `ν` = "read the first `total` bytes out and back" (`snap`) after every row body -/
+theorem rasterizeEdgesWB_mem (total byte n bits stride : Nat) (width : Int) (s : Array Nat) (l r : Edge) (t b : Int) :
+    memOf (rasterizeEdgesWB total byte n bits stride width s l r t b) byte =
+      rasterizeEdgesW (snap total byte) n bits stride width (memOf s byte) l r t b :=
+  Pixman.Lemmas.TrapWordsImg.rasterizeEdgesWB_mem total byte n bits stride width s l r t b
 
 open Pixman.Model.Format Pixman.TrapWords in
 /-- non-vacuity: on a zero memory, the a1 span of pixels 30 … 69 of a row at byte 8 (start word, one whole word, end
